@@ -46,6 +46,7 @@ const (
 	opSTAKE        = 0xee
 	opUNSTAKE      = 0xef
 	opUNSTAKEALL   = 0xeb
+	opSTAKENUM     = 0xea
 )
 
 type fixup struct {
@@ -139,7 +140,7 @@ type hosted struct {
 
 type program struct {
 	hosts    map[string][]byte
-	rootInit []byte
+	rootInit map[*txn][]byte
 }
 
 type compiler struct {
@@ -178,17 +179,23 @@ func (c *compiler) collect(f *frame, self string) {
 	}
 }
 
-func compileTx(ab *addrBook, tx *txn) *program {
-	c := &compiler{ab: ab, blk: tx.blk, bodies: map[string][]hosted{}, seenID: map[string]map[int]bool{}}
-	p := &program{hosts: map[string][]byte{}}
-	if !tx.create {
-		if tx.blk.isHost(tx.target) {
-			c.register(tx.target, tx.rootID, tx.body, tx.target)
+func compileTx(ab *addrBook, tx *txn) *program { return compileTxs(ab, []*txn{tx}) }
+
+// compileTxs builds the dispatcher code of every host for all the given transactions (ids must be
+// unique across them, except inside a reused CREATE2 init code) and the init code of creation transactions.
+func compileTxs(ab *addrBook, txs []*txn) *program {
+	c := &compiler{ab: ab, blk: txs[0].blk, bodies: map[string][]hosted{}, seenID: map[string]map[int]bool{}}
+	p := &program{hosts: map[string][]byte{}, rootInit: map[*txn][]byte{}}
+	for _, tx := range txs {
+		if !tx.create {
+			if tx.blk.isHost(tx.target) {
+				c.register(tx.target, tx.rootID, tx.body, tx.target)
+			}
+			c.collect(tx.body, tx.target)
+		} else {
+			c.collect(tx.body, "dyn")
+			p.rootInit[tx] = c.unit(nil, tx.body, "dyn")
 		}
-		c.collect(tx.body, tx.target)
-	} else {
-		c.collect(tx.body, "dyn")
-		p.rootInit = c.unit(nil, tx.body, "dyn")
 	}
 	names := make([]string, 0, len(c.bodies))
 	for h := range c.bodies {
@@ -335,6 +342,10 @@ func (c *compiler) body(a *asm, f *frame, self string) {
 		case 'V':
 			a.push(0)
 			a.op(opUNSTAKEALL, opPOP)
+		case 'Q':
+			ptr, _ := c.ab.resolveName(x.addr)
+			a.pushBytes(ptr[:])
+			a.op(opSTAKENUM, opPOP)
 		}
 	}
 	switch f.end {
@@ -373,7 +384,7 @@ func (c *compiler) body(a *asm, f *frame, self string) {
 }
 
 func amountWei(units int) []byte {
-	v := new(big.Int).Mul(big.NewInt(int64(units)), big.NewInt(1000000000))
+	v := new(big.Int).Mul(big.NewInt(int64(units)), oneRPG) // whole RPG
 	b := v.Bytes()
 	if len(b) == 0 {
 		b = []byte{0}
